@@ -34,6 +34,7 @@ func (s itemSpec) bytes() []byte {
 
 type c15Join struct {
 	Items []itemSpec
+	Then  []itemSpec // another list joined (and other streams split) between joining Items and splitting its stream
 }
 
 var boundaryLens = []int{0, 0, 1, 2, 126, 127, 128, 129, 255, 256, 16382, 16383, 16384, 16385}
@@ -71,6 +72,11 @@ func genC15Join(t *rapid.T) c15Join {
 		}
 		p.Items[i] = itemSpec{Len: l, Fill: rapid.Byte().Draw(t, "fill")}
 	}
+	if rapid.IntRange(0, 2).Draw(t, "thenGate") == 0 {
+		for i, m := 0, rapid.IntRange(1, 6).Draw(t, "nthen"); i < m; i++ {
+			p.Then = append(p.Then, itemSpec{Len: rapid.SampledFrom([]int{0, 1, 5, 127, 128, 300, 5000}).Draw(t, "lthen"), Fill: rapid.Byte().Draw(t, "fthen")})
+		}
+	}
 	return p
 }
 
@@ -104,6 +110,24 @@ func runC15Join(p c15Join, c *stats.Case) error {
 	enc := portalwire.VerifEncodeContents(xs)
 	if want := model.JoinStream(xs); !bytes.Equal(enc, want) {
 		return fmt.Errorf("encodeContents differs from reference join: got %d bytes want %d", len(enc), len(want))
+	}
+	if len(p.Then) > 0 {
+		// the stream of a list is a value: joining and splitting other lists in between (as concurrent transfers
+		// do) must not change what it splits into
+		ys := make([][]byte, len(p.Then))
+		for i, s := range p.Then {
+			ys[i] = s.bytes()
+		}
+		enc2 := portalwire.VerifEncodeContents(ys)
+		if dec2, err := portalwire.VerifDecodeContents(enc2); err != nil || len(dec2) != len(ys) {
+			return fmt.Errorf("second list of %d items does not round-trip (err %v)", len(ys), err)
+		}
+		if want := model.JoinStream(xs); !bytes.Equal(enc, want) {
+			return fmt.Errorf("the stream of the first list (%d items) changed while a second list (%d items) was joined and split", len(xs), len(ys))
+		}
+		if len(xs) > 0 {
+			c.NT("other-list-joined-in-between")
+		}
 	}
 	dec, err := portalwire.VerifDecodeContents(enc)
 	if err != nil {
